@@ -95,8 +95,6 @@ func targetEnvAcraBlock(data []byte) (vs hx.Vs) {
 		if b2, err := acrablock.NewAcraBlockFromData(data); err == nil {
 			_, _ = b2.Decrypt(aliceSyms(), nil)
 		}
-		// Decrypt is also reachable on unvalidated bytes (AcraBlock is a []byte type)
-		_, _ = acrablock.AcraBlock(data).Decrypt(aliceSyms(), nil)
 	})
 	return vs
 }
@@ -147,7 +145,7 @@ func (p envProcessor) OnAcraBlock(ctx context.Context, b acrablock.AcraBlock) ([
 // env.process: the inline scanners; a value without a revealed plaintext comes back unchanged, and an
 // error returns the input as it was.
 func targetEnvProcess(data []byte) (vs hx.Vs) {
-	orig := append([]byte(nil), data...)
+	orig := clone(data)
 	check := func(what string, out []byte, err error, failing bool) {
 		if err != nil {
 			if !bytes.Equal(out, orig) {
@@ -161,14 +159,14 @@ func targetEnvProcess(data []byte) (vs hx.Vs) {
 	}
 	hx.Guard(&vs, "env.process", func() {
 		for _, fail := range []bool{false, true} {
-			in := append([]byte(nil), orig...)
+			in := clone(orig)
 			out, err := acrastruct.ProcessAcraStructs(context.Background(), in, make([]byte, len(in)), envProcessor{fail})
 			check("ProcessAcraStructs", out, err, fail)
-			in = append([]byte(nil), orig...)
+			in = clone(orig)
 			out, err = acrablock.ProcessAcraBlocks(context.Background(), in, make([]byte, len(in)), envProcessor{fail})
 			check("ProcessAcraBlocks", out, err, fail)
 			// same buffer for input and output, as OldContainerDetectorWrapper does
-			in = append([]byte(nil), orig...)
+			in = clone(orig)
 			out, err = acrablock.ProcessAcraBlocks(context.Background(), in, in, envProcessor{fail})
 			if err == nil && !bytes.Equal(out, orig) && (fail || !revealsKnownPlain(out)) {
 				vs.Add("changed:env.process", "ProcessAcraBlocks (in-place) changed a value without revealing a protected plaintext")
@@ -179,7 +177,7 @@ func targetEnvProcess(data []byte) (vs hx.Vs) {
 }
 
 func targetEnvContainer(data []byte) (vs hx.Vs) {
-	orig := append([]byte(nil), data...)
+	orig := clone(data)
 	w := fix.TheWorld()
 	dctx := func() *base.DataProcessorContext {
 		return &base.DataProcessorContext{Keystore: w.KS, Context: fix.Ctx(w.Alice)}
@@ -221,7 +219,7 @@ func targetEnvContainer(data []byte) (vs hx.Vs) {
 
 // env.column: the transparent column chains; malformed values are delivered unchanged.
 func targetEnvColumn(data []byte) (vs hx.Vs) {
-	orig := append([]byte(nil), data...)
+	orig := clone(data)
 	w := fix.TheWorld()
 	judge := func(what string, out []byte, err error) {
 		if err != nil {
@@ -235,15 +233,15 @@ func targetEnvColumn(data []byte) (vs hx.Vs) {
 		}
 	}
 	hx.Guard(&vs, "env.column", func() {
-		out, err := fix.NewChain(w.KS, nil).OnColumn(w.Alice, append([]byte(nil), orig...))
+		out, err := fix.NewChain(w.KS, nil).OnColumn(w.Alice, clone(orig))
 		judge("column chain", out, err)
 		cbs, _ := fix.Callbacks()
-		out, err = fix.NewChain(w.KS, cbs).OnColumn(w.Alice, append([]byte(nil), orig...))
+		out, err = fix.NewChain(w.KS, cbs).OnColumn(w.Alice, clone(orig))
 		judge("column chain with poison detection", out, err)
-		out, err = fix.NewSearchChain(w.KS, nil).OnColumn(w.Alice, append([]byte(nil), orig...))
+		out, err = fix.NewSearchChain(w.KS, nil).OnColumn(w.Alice, clone(orig))
 		judge("searchable column chain", out, err)
 		// a client without keys
-		out, err = fix.NewChain(w.KS, nil).OnColumn(w.Carol, append([]byte(nil), orig...))
+		out, err = fix.NewChain(w.KS, nil).OnColumn(w.Carol, clone(orig))
 		if err == nil && !bytes.Equal(out, orig) {
 			vs.Add("changed:env.column", "column chain changed a value for a client that has no keys")
 		}
@@ -256,7 +254,7 @@ func targetEnvHmac(data []byte) (vs hx.Vs) {
 	hx.Guard(&vs, "env.hmac", func() {
 		h := hmac.ExtractHash(data)
 		if h != nil {
-			if h.Length() != hmac.GetDefaultHashSize()+1 || h.Length() > len(data) || !bytes.Equal(h.Marshal(), data[:h.Length()]) {
+			if h.Length() != hmac.GetDefaultHashSize() || h.Length() > len(data) || !bytes.Equal(h.Marshal(), data[:h.Length()]) {
 				vs.Add("bounds:env.hmac", "ExtractHash returned a %d-byte hash from %d bytes", h.Length(), len(data))
 			}
 			_ = h.IsEqual(data[h.Length():], w.Alice, w.KS)
